@@ -108,7 +108,8 @@ type Term struct {
 	I1   int
 	I2   int
 	// flags for region classification (see mem.go)
-	Low bool // OVar: region variable known to be < FreshBase; or initial-heap array variable
+	Low bool   // OVar: region variable known to be < FreshBase; or initial-heap array variable
+	Ep  uint32 // OVar: allocation epoch at creation
 }
 
 type Ctx struct {
@@ -117,6 +118,9 @@ type Ctx struct {
 	nvar  int
 	// UF declarations: name -> (arg sorts, result sort)
 	UFs map[string]*UFDecl
+	Epoch     uint32 // current allocation epoch (number of fresh regions handed out)
+	localDistinct map[[2]int]bool // region pairs known distinct in the query being built
+	epochMemo map[*Term]uint32
 }
 
 type UFDecl struct {
@@ -164,7 +168,9 @@ func (c *Ctx) Const(w int, v uint64) *Term { return c.mk(OConst, BV(w), nil, v&m
 func (c *Ctx) Var(name string, s *Sort) *Term { return c.mk(OVar, s, nil, 0, name, 0, 0) }
 func (c *Ctx) FreshVar(prefix string, s *Sort) *Term {
 	c.nvar++
-	return c.Var(fmt.Sprintf("%s!%d", sanitize(prefix), c.nvar), s)
+	t := c.Var(fmt.Sprintf("%s!%d", sanitize(prefix), c.nvar), s)
+	t.Ep = c.Epoch
+	return t
 }
 func (c *Ctx) FreshLowVar(prefix string, s *Sort) *Term {
 	c.nvar++
@@ -323,10 +329,8 @@ func (c *Ctx) Eq(a, b *Term) *Term {
 			return c.Bool(ca == cb)
 		}
 		// region classes: fresh const vs low var
-		if a.S.W == 32 {
-			if (isFreshRegion(a) && isLowRegion(b)) || (isFreshRegion(b) && isLowRegion(a)) {
-				return c.False()
-			}
+		if a.S.W == RgnW && c.regionsDistinct(a, b) {
+			return c.False()
 		}
 		// ite(c, k1, k2) == k
 		if a.Op == OIte && b.IsConst() && a.Args[1].IsConst() && a.Args[2].IsConst() {
@@ -383,101 +387,121 @@ func (c *Ctx) Ite(cond, a, b *Term) *Term {
 // ---------------------------------------------------------------------------------------------
 // Bit-vector constructors
 
-// splitAdd decomposes t as base + const (base may be nil when t is constant).
+// Linear normal form: sums are n-ary OAdd nodes whose arguments are coefficient*atom terms sorted by
+// atom id, with an optional trailing constant. This makes offset arithmetic canonical, so that
+// (o + k) + base and base + (k + o) are the same term and base+c1 / base+c2 are syntactically distinct.
+
+// splitAdd decomposes t as base + const (base == nil when t is constant).
 func (c *Ctx) splitAdd(t *Term) (*Term, uint64) {
 	if t.Op == OConst {
 		return nil, t.Val
 	}
-	if t.Op == OAdd && t.Args[1].Op == OConst {
-		return t.Args[0], t.Args[1].Val
+	if t.Op == OAdd {
+		last := t.Args[len(t.Args)-1]
+		if last.Op == OConst {
+			rest := t.Args[:len(t.Args)-1]
+			if len(rest) == 1 {
+				return rest[0], last.Val
+			}
+			return c.mk(OAdd, t.S, rest, 0, "", 0, 0), last.Val
+		}
 	}
 	return t, 0
 }
 
+type linTerm struct {
+	atom *Term
+	coef uint64
+}
+
+// linearize accumulates coef*t into (m, k).
+func (c *Ctx) linearize(t *Term, coef uint64, m map[*Term]uint64, k *uint64) {
+	w := t.S.W
+	switch t.Op {
+	case OConst:
+		*k = (*k + coef*t.Val) & mask(w)
+	case OAdd:
+		for _, a := range t.Args {
+			c.linearize(a, coef, m, k)
+		}
+	case OSub:
+		c.linearize(t.Args[0], coef, m, k)
+		c.linearize(t.Args[1], (-coef)&mask(w), m, k)
+	case ONeg:
+		c.linearize(t.Args[0], (-coef)&mask(w), m, k)
+	case OMul:
+		if t.Args[1].Op == OConst {
+			c.linearize(t.Args[0], (coef*t.Args[1].Val)&mask(w), m, k)
+			return
+		}
+		m[t] = (m[t] + coef) & mask(w)
+	default:
+		m[t] = (m[t] + coef) & mask(w)
+	}
+}
+
+func (c *Ctx) fromLinear(s *Sort, m map[*Term]uint64, k uint64) *Term {
+	w := s.W
+	var ts []linTerm
+	for a, co := range m {
+		if co&mask(w) != 0 {
+			ts = append(ts, linTerm{a, co & mask(w)})
+		}
+	}
+	sort.Slice(ts, func(i, j int) bool { return ts[i].atom.ID < ts[j].atom.ID })
+	var args []*Term
+	for _, lt := range ts {
+		switch lt.coef {
+		case 1:
+			args = append(args, lt.atom)
+		case mask(w):
+			args = append(args, c.mk(ONeg, s, []*Term{lt.atom}, 0, "", 0, 0))
+		default:
+			args = append(args, c.mk(OMul, s, []*Term{lt.atom, c.Const(w, lt.coef)}, 0, "", 0, 0))
+		}
+	}
+	k &= mask(w)
+	if len(args) == 0 {
+		return c.Const(w, k)
+	}
+	if k != 0 {
+		args = append(args, c.Const(w, k))
+	}
+	if len(args) == 1 {
+		return args[0]
+	}
+	return c.mk(OAdd, s, args, 0, "", 0, 0)
+}
+
 func (c *Ctx) Add(a, b *Term) *Term {
-	w := a.S.W
 	if a.S != b.S {
 		panic(fmt.Sprintf("Add sort mismatch %s %s: %s + %s", a.S, b.S, c.Show(a), c.Show(b)))
 	}
-	ba, ca := c.splitAdd(a)
-	bb, cb := c.splitAdd(b)
-	k := (ca + cb) & mask(w)
-	var base *Term
-	switch {
-	case ba == nil && bb == nil:
-		return c.Const(w, k)
-	case ba == nil:
-		base = bb
-	case bb == nil:
-		base = ba
-	default:
-		// x + (y - x) => y ; (y - x) + x => y
-		if bb.Op == OSub && bb.Args[1] == ba {
-			base = bb.Args[0]
-		} else if ba.Op == OSub && ba.Args[1] == bb {
-			base = ba.Args[0]
-		} else {
-			x, y := ba, bb
-			if x.ID > y.ID {
-				x, y = y, x
-			}
-			base = c.mk(OAdd, a.S, []*Term{x, y}, 0, "", 0, 0)
-		}
-	}
-	if k == 0 {
-		return base
-	}
-	if base.Op == OConst {
-		return c.Const(w, base.Val+k)
-	}
-	bb2, cb2 := c.splitAdd(base)
-	if cb2 != 0 {
-		return c.Add(bb2, c.Const(w, cb2+k))
-	}
-	return c.mk(OAdd, a.S, []*Term{base, c.Const(w, k)}, 0, "", 0, 0)
+	m := map[*Term]uint64{}
+	var k uint64
+	c.linearize(a, 1, m, &k)
+	c.linearize(b, 1, m, &k)
+	return c.fromLinear(a.S, m, k)
 }
 
 func (c *Ctx) Sub(a, b *Term) *Term {
-	w := a.S.W
 	if a.S != b.S {
 		panic(fmt.Sprintf("Sub sort mismatch: %s - %s", c.Show(a), c.Show(b)))
 	}
-	if a == b {
-		return c.Const(w, 0)
-	}
-	ba, ca := c.splitAdd(a)
-	bb, cb := c.splitAdd(b)
-	if bb == nil {
-		return c.Add(a, c.Const(w, -cb))
-	}
-	if ba == bb {
-		return c.Const(w, ca-cb)
-	}
-	if ba != nil {
-		// (x + y) - x => y
-		if ba.Op == OAdd && ba.Args[1].Op != OConst {
-			if ba.Args[0] == bb {
-				return c.Add(ba.Args[1], c.Const(w, ca-cb))
-			}
-			if ba.Args[1] == bb {
-				return c.Add(ba.Args[0], c.Const(w, ca-cb))
-			}
-		}
-		// (x - y) - x  no
-	}
-	var core *Term
-	if ba == nil {
-		core = c.mk(ONeg, a.S, []*Term{bb}, 0, "", 0, 0)
-	} else {
-		core = c.mk(OSub, a.S, []*Term{ba, bb}, 0, "", 0, 0)
-	}
-	return c.Add(core, c.Const(w, ca-cb))
+	m := map[*Term]uint64{}
+	var k uint64
+	c.linearize(a, 1, m, &k)
+	c.linearize(b, mask(a.S.W), m, &k)
+	return c.fromLinear(a.S, m, k)
 }
 
 func (c *Ctx) Neg(a *Term) *Term { return c.Sub(c.Const(a.S.W, 0), a) }
 
 func (c *Ctx) Mul(a, b *Term) *Term {
 	w := a.S.W
+	if a.S != b.S {
+		panic(fmt.Sprintf("Mul sort mismatch: %s * %s", c.Show(a), c.Show(b)))
+	}
 	if a.IsConst() && b.IsConst() {
 		return c.Const(w, a.Val*b.Val)
 	}
@@ -485,12 +509,13 @@ func (c *Ctx) Mul(a, b *Term) *Term {
 		a, b = b, a
 	}
 	if b.IsConst() {
-		switch b.Val {
-		case 0:
-			return b
-		case 1:
-			return a
-		}
+		m := map[*Term]uint64{}
+		var k uint64
+		c.linearize(a, b.Val, m, &k)
+		return c.fromLinear(a.S, m, k)
+	}
+	if a.ID > b.ID {
+		a, b = b, a
 	}
 	return c.mk(OMul, a.S, []*Term{a, b}, 0, "", 0, 0)
 }
@@ -676,7 +701,7 @@ func (c *Ctx) Ult(a, b *Term) *Term {
 	if b.IsConst() && b.Val == 0 {
 		return c.False()
 	}
-	if a.S.W == 32 && b.IsConst() && b.Val == FreshBase {
+	if a.S.W == RgnW && b.IsConst() && b.Val == FreshBase {
 		if isLowRegion(a) {
 			return c.True()
 		}
@@ -855,10 +880,8 @@ func (c *Ctx) distinct(a, b *Term) bool {
 		if ba == bb && ba != nil && ca != cb {
 			return true
 		}
-		if a.S.W == 32 {
-			if (isFreshRegion(a) && isLowRegion(b)) || (isFreshRegion(b) && isLowRegion(a)) {
-				return true
-			}
+		if a.S.W == RgnW && c.regionsDistinct(a, b) {
+			return true
 		}
 	}
 	return false
@@ -966,7 +989,11 @@ func (c *Ctx) rebuild(t *Term, a []*Term) *Term {
 	case OIte:
 		return c.Ite(a[0], a[1], a[2])
 	case OAdd:
-		return c.Add(a[0], a[1])
+		r := a[0]
+		for _, x := range a[1:] {
+			r = c.Add(r, x)
+		}
+		return r
 	case OSub:
 		return c.Sub(a[0], a[1])
 	case OMul:
@@ -1017,6 +1044,32 @@ func (c *Ctx) rebuild(t *Term, a []*Term) *Term {
 		return c.App(t.Name, t.S, a...)
 	}
 	panic("rebuild: op")
+}
+
+// Rebuild re-applies the simplifying constructors bottom-up over the whole term (after replacing the
+// keys of m), so that knowledge installed in the context (localDistinct) takes effect.
+func (c *Ctx) Rebuild(t *Term, m map[*Term]*Term) *Term {
+	memo := map[*Term]*Term{}
+	var rec func(t *Term) *Term
+	rec = func(t *Term) *Term {
+		if r, ok := m[t]; ok {
+			return r
+		}
+		if len(t.Args) == 0 {
+			return t
+		}
+		if r, ok := memo[t]; ok {
+			return r
+		}
+		args := make([]*Term, len(t.Args))
+		for i, a := range t.Args {
+			args[i] = rec(a)
+		}
+		r := c.rebuild(t, args)
+		memo[t] = r
+		return r
+	}
+	return rec(t)
 }
 
 // ---------------------------------------------------------------------------------------------
@@ -1198,6 +1251,13 @@ func (c *Ctx) EmitSMT(assumps []*Term, goal *Term, header string, wantModel bool
 		for _, a := range t.Args {
 			as = append(as, ref(a))
 		}
+		if t.Op == OAdd && len(as) > 2 {
+			r := as[0]
+			for _, x := range as[1:] {
+				r = "(bvadd " + r + " " + x + ")"
+			}
+			return r
+		}
 		return "(" + opName[t.Op] + " " + strings.Join(as, " ") + ")"
 	}
 	for _, t := range order {
@@ -1208,6 +1268,17 @@ func (c *Ctx) EmitSMT(assumps []*Term, goal *Term, header string, wantModel bool
 			n := fmt.Sprintf("n%d", t.ID)
 			fmt.Fprintf(&sb, "(define-fun %s () %s %s)\n", n, t.S, expr(t))
 			names[t] = n
+		}
+	}
+	// region classes known to the simplifier are stated for the solver as well
+	for _, t := range order {
+		if t.S.K == SBV && t.S.W == RgnW && t.Op != OConst && t.Op != OIte {
+			if isLowRegion(t) {
+				fmt.Fprintf(&sb, "(assert (bvult %s #x%06x))\n", ref(t), FreshBase)
+			} else {
+				// a region term cannot denote an allocation made after its leaves came into existence
+				fmt.Fprintf(&sb, "(assert (bvule %s #x%06x))\n", ref(t), FreshBase+uint64(c.epochOf(t)))
+			}
 		}
 	}
 	for _, a := range assumps {
@@ -1246,11 +1317,64 @@ func depthAtLeast(t *Term, d int) bool {
 // Region classes (memory model §3.3): fresh allocations are concrete constants >= FreshBase,
 // parameters and initial-heap pointers are symbolic and < FreshBase.
 
-const FreshBase = 0x10000000
+const (
+	RgnW      = 24 // width of region identifiers (no Go integer type has this width)
+	TypW      = 20 // width of dynamic type identifiers
+	FreshBase = 0x800000
+)
 
-func isFreshRegion(t *Term) bool { return t.Op == OConst && t.S.K == SBV && t.S.W == 32 && t.Val >= FreshBase }
+func isFreshRegion(t *Term) bool { return t.Op == OConst && t.S.K == SBV && t.S.W == RgnW && t.Val >= FreshBase }
+
+// epochOf: the largest allocation epoch among the leaves of t (variables carry the epoch at which
+// they were created, fresh-region constants their own number).
+func (c *Ctx) epochOf(t *Term) uint32 {
+	if c.epochMemo == nil {
+		c.epochMemo = map[*Term]uint32{}
+	}
+	if e, ok := c.epochMemo[t]; ok {
+		return e
+	}
+	var e uint32
+	switch {
+	case t.Op == OVar:
+		e = t.Ep
+	case t.Op == OConst:
+		if isFreshRegion(t) {
+			e = uint32(t.Val - FreshBase)
+		}
+	default:
+		for _, a := range t.Args {
+			if x := c.epochOf(a); x > e {
+				e = x
+			}
+		}
+	}
+	c.epochMemo[t] = e
+	return e
+}
+
+// regionsDistinct: a and b (region-sorted) are syntactically known to denote different regions.
+func (c *Ctx) regionsDistinct(a, b *Term) bool {
+	if c.localDistinct != nil && c.localDistinct[[2]int{a.ID, b.ID}] {
+		return true
+	}
+	if isFreshRegion(b) {
+		a, b = b, a
+	}
+	if !isFreshRegion(a) {
+		return false
+	}
+	if isFreshRegion(b) {
+		return a.Val != b.Val
+	}
+	if isLowRegion(b) {
+		return true
+	}
+	return uint64(c.epochOf(b)) < a.Val-FreshBase
+}
+
 func isLowRegion(t *Term) bool {
-	if t.S.K != SBV || t.S.W != 32 {
+	if t.S.K != SBV || t.S.W != RgnW {
 		return false
 	}
 	if t.Op == OConst {
